@@ -471,6 +471,12 @@ pub fn replay_state(prop: &str, case: &Value) -> ! {
     match prop {
         "C03" => {
             println!("oracle: {:?}", lj_oracle(&st, shape, &p));
+            if case.get("shifted_params").is_some() {
+                let q = Params::from_json(&case["shifted_params"]);
+                let st2 = AnyState::from_json(&state_json(group, shape, &q)).unwrap_or_else(|e| machinery_error(&e));
+                println!("re-described with {}: score(): {:?}", q.json(), st2.score());
+                println!("oracle: {:?}", lj_oracle(&st2, shape, &q));
+            }
         }
         _ => {
             let o = lattice_max_depth(&body, &st.cartesian(), &p.lattice(), 400, f64::INFINITY);
@@ -492,6 +498,9 @@ pub struct LjOracle {
     pub extent: f64,
     /// an interacting image pair lies beyond the third shell of cells around the wrapped copies
     pub interacting_beyond_third_shell: bool,
+    /// an interacting image pair lies beyond the sixteenth shell (the crate's cap on the number
+    /// of shells it sums, there to bound the time of one evaluation in degenerate cells)
+    pub interacting_beyond_shell_cap: bool,
 }
 
 /// Independent lattice sum: every unordered pair of distinct molecule images once, out to the
@@ -544,6 +553,7 @@ pub fn lj_oracle(st: &AnyState, shape: &Value, p: &Params) -> Option<LjOracle> {
     let mut sum = 0.;
     let mut pairs = 0usize;
     let mut beyond = false;
+    let mut beyond_cap = false;
     for nn in -nmax..=nmax {
         for mm in -mmax..=mmax {
             let l = lat.vec(nn, mm);
@@ -579,6 +589,9 @@ pub fn lj_oracle(st: &AnyState, shape: &Value, p: &Params) -> Option<LjOracle> {
                     if e != 0. && (nn.abs() > 3 || mm.abs() > 3) {
                         beyond = true;
                     }
+                    if e != 0. && (nn.abs() > 16 || mm.abs() > 16) {
+                        beyond_cap = true;
+                    }
                 }
             }
         }
@@ -592,7 +605,7 @@ pub fn lj_oracle(st: &AnyState, shape: &Value, p: &Params) -> Option<LjOracle> {
             0.5 * density * k * k * 4. * eps_max * sig_max.powi(6) * 2. * PI / (4. * (reach - dmax - 2. * extent).powi(4))
         }
     };
-    Some(LjOracle { energy_per_molecule: sum / n as f64, tail_bound: tail, pairs, cutoff, extent, interacting_beyond_third_shell: beyond })
+    Some(LjOracle { energy_per_molecule: sum / n as f64, tail_bound: tail, pairs, cutoff, extent, interacting_beyond_third_shell: beyond, interacting_beyond_shell_cap: beyond_cap })
 }
 
 pub fn c03_shapes() -> Vec<ShapeSpec> {
@@ -650,6 +663,28 @@ pub fn truncation_allowance(cutoff: Option<f64>, n_copies: usize, shape: &Value,
     }
 }
 
+/// Known-finding predicates of the LJ sum, decided from the input alone (which image pairs of
+/// this state interact): a cut potential whose interacting pairs reach beyond the sixteen shells
+/// the crate sums at most (open), or beyond the three it used to sum (repaired, kept so that a
+/// regression is named).
+pub fn lj_key(o: &Option<LjOracle>) -> Option<&'static str> {
+    match o {
+        Some(v) if v.cutoff.is_some() && v.interacting_beyond_shell_cap => Some("lj-cut-pair-beyond-sixteenth-shell"),
+        Some(v) if v.cutoff.is_some() && v.interacting_beyond_third_shell => Some("lj-interacting-pair-beyond-third-shell"),
+        _ => None,
+    }
+}
+
+/// The key of a comparison between two descriptions: the open one if either has it.
+pub fn lj_key2(a: &Option<LjOracle>, b: &Option<LjOracle>) -> Option<&'static str> {
+    let (ka, kb) = (lj_key(a), lj_key(b));
+    if ka == Some("lj-cut-pair-beyond-sixteenth-shell") || kb == Some("lj-cut-pair-beyond-sixteenth-shell") {
+        Some("lj-cut-pair-beyond-sixteenth-shell")
+    } else {
+        ka.or(kb)
+    }
+}
+
 pub fn c03_judge(st: &AnyState, shape: &Value, p: &Params) -> (Option<LjOracle>, Option<(Option<&'static str>, String)>) {
     let score = st.score();
     let o = match lj_oracle(st, shape, p) {
@@ -659,7 +694,7 @@ pub fn c03_judge(st: &AnyState, shape: &Value, p: &Params) -> (Option<LjOracle>,
     let want = -o.energy_per_molecule;
     // known-finding predicate: for a cut potential, some interacting pair of images lies outside
     // the three shells of cells the crate sums over
-    let key = if o.cutoff.is_some() && o.interacting_beyond_third_shell { Some("lj-interacting-pair-beyond-third-shell") } else { None };
+    let key = lj_key(&Some(o.clone()));
     // uncut potential: the crate truncates at three shells; the property allows the
     // convergence error of the truncated sum, bounded here by the r^-6 tail beyond the
     // distance three shells are guaranteed to cover
@@ -787,8 +822,7 @@ pub fn c03(tier: Tier) -> ! {
                                         if !same {
                                             fail_count += 1;
                                             let o2 = lj_oracle(&st2, &sj, &q);
-                                            let beyond = |x: &Option<LjOracle>| x.as_ref().map(|v| v.cutoff.is_some() && v.interacting_beyond_third_shell).unwrap_or(false);
-                                            let rkey = if beyond(&o) || beyond(&o2) { Some("lj-interacting-pair-beyond-third-shell") } else { None };
+                                            let rkey = lj_key2(&o, &o2);
                                             if fails.len() < 2 || rkey.is_none() && fails.len() < 6 {
                                                 fails.push((rkey, format!("{} {}: the same crystal described in the cell (A, B{}A) (ratio {}, angle {}) scores {:?} instead of {:?}", group, spec.label(), if sgn < 0. { "-" } else { "+" }, q.ratio, q.angle, s2, base_score), json!({"engine": "state", "group": group, "shape": sj, "shape_label": spec.label(), "params": p.json(), "shifted_params": q.json()})));
                                             }
@@ -827,8 +861,7 @@ pub fn c03(tier: Tier) -> ! {
                                         // the two descriptions may lose different far pairs to the
                                         // three-shell truncation (known finding, same predicate)
                                         let o2 = lj_oracle(&st2, &sj, &q);
-                                        let beyond = |x: &Option<LjOracle>| x.as_ref().map(|v| v.cutoff.is_some() && v.interacting_beyond_third_shell).unwrap_or(false);
-                                        let rkey = if beyond(&o) || beyond(&o2) { Some("lj-interacting-pair-beyond-third-shell") } else { None };
+                                        let rkey = lj_key2(&o, &o2);
                                         if fails.len() < 2 || rkey.is_none() && fails.len() < 6 {
                                             fails.push((rkey, format!("{} {}: the same crystal described with the site shifted by ({}, {}) scores {:?} instead of {:?}", group, spec.label(), dx, dy, s2, base_score), json!({"engine": "state", "group": group, "shape": sj, "shape_label": spec.label(), "params": p.json(), "shifted_params": q.json()})));
                                         }
